@@ -149,11 +149,11 @@ def convert (flags : Nat) (is16 : Bool) (len channels : Nat) (dest : Bytes) : By
   let d := if fl flags SAMPLE_FLAG_VIDC then convertVidc (len * channels) d else d
   d
 
-/-- names of the passes in the order `convert`/`load` apply them (compared with the generated
-    `Gen.stageOrder` in XmpProps/C20.lean) -/
-def modelStageOrder : List String :=
-  ["adpcm4_decoder", "convert_7bit_to_8bit", "convert_endian", "convert_delta", "convert_signal",
-   "convert_vidc_to_linear", "convert_stereo_interleaved"]
+/-- the loader flags in the order `load` applies the steps they control: early return, read source,
+    the `convert` passes, interleave, full-repeat (compared with the generated `Gen.flagOrder` in
+    XmpProps/C20.lean) -/
+def modelFlagOrder : List String :=
+  ["ADLIB", "NOLOAD", "ADPCM", "7BIT", "BIGEND", "DIFF", "8BDIFF", "UNS", "VIDC", "INTERLEAVED", "FULLREP"]
 
 /-! ## Truncation block, loop sanity, read, guards -/
 
